@@ -1656,6 +1656,28 @@ impl<'a> HistoryIterator<'a> {
 	///
 	/// After this call, inner iterator is at previous user key (or invalid).
 	fn collect_user_key_backward(&mut self) -> Result<bool> {
+		// A key whose history lists nothing (newest visible version is a hard
+		// delete, only filtered tombstones, nothing in the timestamp range) must
+		// be skipped, not end the traversal: loop until a key yields entries or
+		// the range is exhausted - as `skip_to_valid_forward` does.
+		loop {
+			if self.collect_one_user_key_backward()? {
+				return Ok(true);
+			}
+			if self.limit_reached || !self.inner_valid() {
+				return Ok(false);
+			}
+			let user_key = self.inner_key().user_key().to_vec();
+			if !self.user_key_within_lower_bound(&user_key) {
+				return Ok(false);
+			}
+		}
+	}
+
+	/// Collects the listable versions of the user key the inner iterator stands
+	/// on (moving it to the previous user key). `false`: nothing to list for
+	/// this key, or the traversal is over.
+	fn collect_one_user_key_backward(&mut self) -> Result<bool> {
 		self.backward_buffer.clear();
 
 		if !self.inner_valid() {
@@ -1672,7 +1694,7 @@ impl<'a> HistoryIterator<'a> {
 			while self.inner_valid() && self.inner_key().user_key() == user_key.as_slice() {
 				self.inner_prev()?;
 			}
-			return self.collect_user_key_backward();
+			return self.collect_one_user_key_backward();
 		}
 
 		// Collect all visible versions
